@@ -168,6 +168,25 @@ func emitStructView(out *Out, r *Rng) {
 			if (e1 == nil) != (e2 == nil) {
 				why = append(why, fmt.Sprintf("verification of %s differs after the round trip: %v vs %v", pt, e1, e2))
 			}
+			// what the accessors hand out belongs to the caller: changing it must not change the credential
+			if cl, err := vc.GetCoreClaimFromProof(pt); err == nil && cl != nil {
+				before, _ := cl.Hex()
+				cl.SetRevocationNonce(cl.GetRevocationNonce() + 1)
+				cl.SetVersion(cl.GetVersion() + 1)
+				if cl2, err2 := vc.GetCoreClaimFromProof(pt); err2 != nil {
+					why = append(why, fmt.Sprintf("core claim of %s no longer available after an earlier result was modified: %v", pt, err2))
+				} else if after, _ := cl2.Hex(); after != before {
+					why = append(why, fmt.Sprintf("core claim of %s reported by the credential changed after the caller modified an earlier result (%s... -> %s...)", pt, trunc(before, 24), trunc(after, 24)))
+				}
+				e3 := vc.VerifyProof(context.Background(), pt, resolverCfg{mode: mode}.resolver(&calls), verifiable.WithStatusResolverRegistry(reg))
+				if (e1 == nil) != (e3 == nil) {
+					why = append(why, fmt.Sprintf("verification of %s differs when repeated on the same object after its core claim had been read and the copy modified: %v vs %v", pt, e1, e3))
+				}
+				enc3, _ := json.Marshal(vc)
+				if string(enc3) != string(enc) {
+					why = append(why, "the credential encodes differently after its core claim had been read and the copy modified")
+				}
+			}
 		}
 		return 0, nil
 	})
